@@ -1,7 +1,7 @@
 (* Property C09 — inserting or removing markup never alters the paragraph text around it.
    Statements only; each is closed by [exact] of a lemma proved in TreeProof*.v.  Model: Tree.v (event list + tree). *)
 From Coq Require Import List ZArith Bool. Import ListNotations.
-Require Import WS WSnfproof Tree TreeNF TreeProof TreeProof2 TreeProof3 TreeProof5 TreeProof9 TreeProof10.
+Require Import WS WSnfproof Tree TreeNF TreeProof TreeProof2 TreeProof3 TreeProof5 TreeProof9 TreeProof10 TreeProof11 TreeProof12.
 
 (* ---- insertion: set_span / set_link by offset and length (offset >= 0: the repaired code raises on negative ones) *)
 Theorem C09_insert_preserves_offset : forall k a off len evs, plain_kind k = true -> (0 <= off)%Z ->
@@ -130,6 +130,14 @@ Theorem C09_strip_keeps : forall sp pr n n', strip_ok sp pr false n = true -> st
 Proof. exact strip_top_raw. Qed.
 Print Assumptions C09_strip_keeps.
 
+(* the guard is exact, and without it only the multiplicity of consecutive spaces is lost: the result is never longer,
+   and equal to the original after runs of spaces are squeezed ([collapse] = re.sub(" +", " ", ·)) *)
+Theorem C09_strip_guard_exact : forall sp pr n n', strip_top collapse sp pr n = Some n' ->
+  (raw (content n') = raw (content n) <-> strip_ok sp pr false n = true)
+  /\ collapse (raw (flat n')) = collapse (raw (flat n)) /\ length (raw (content n')) <= length (raw (content n)).
+Proof. exact strip_top_exact. Qed.
+Print Assumptions C09_strip_guard_exact.
+
 (* strip_tags on an element that is itself stripped (Span.remove_spans(), repaired code fixes/F105): all the characters of
    the element, its own tail included, are in the returned paragraph — under the same guard *)
 Theorem C09_strip_default_keeps : forall a0 sp pr n n', sp (kind_of n) (match n with Node _ _ s _ _ _ => s end) = true ->
@@ -165,6 +173,19 @@ Proof.
   intros [_ [H _]]. destruct C09_strip_unguarded_refuted as [n [n' [E D]]]. apply D. eapply H. exact E.
 Qed.
 Print Assumptions C09_full_refuted.
+
+(* ---- the two views of the model are interchangeable: [flat] and [parse] are inverse bijections between the trees
+        without argument marks and the event lists that [parse] accepts (one element, well bracketed, never two
+        adjacent text nodes) *)
+Theorem C09_tree_eventlist_bijection :
+  (forall n, nosel n = true -> parse (flat n) = Some n) /\
+  (forall evs n, parse evs = Some n -> flat n = evs /\ nosel n = true).
+Proof. split; [exact parse_flat|exact flat_parse]. Qed.
+Print Assumptions C09_tree_eventlist_bijection.
+Theorem C09_content_parses_back : forall n, nosel n = true ->
+  parse_content (content n) = Some (match n with Node _ _ _ tx ks _ => (tx, ks) end).
+Proof. exact parse_content_flat. Qed.
+Print Assumptions C09_content_parses_back.
 
 (* ---- the hypotheses are inhabited by non-trivial values *)
 Example C09_example_history :   (* "ab cd": span on [1,3) = "b " (the space becomes text:s), bookmark at raw offset 4 (the
